@@ -21,7 +21,10 @@ try:
         props = args[3:]
     env = dict(os.environ, VERIF_REPO=tmp, VERIF_NO_EVIDENCE="1")
     for pr in props:
-        r = subprocess.run(["/verif/check", pr], env=env, stdout=subprocess.PIPE, stderr=subprocess.STDOUT, universal_newlines=True)
+        try:
+            r = subprocess.run(["/verif/check", pr], env=env, stdout=subprocess.PIPE, stderr=subprocess.STDOUT, universal_newlines=True, timeout=900)
+        except subprocess.TimeoutExpired:
+            print(pr, "TIMEOUT"); continue
         lines = [l for l in r.stdout.splitlines() if l.startswith(("VIOLATION", "DEGRADED", "CHECKER", "KNOWN", pr))]
         print(pr, "exit", r.returncode)
         for l in lines[:6]:
